@@ -1,8 +1,365 @@
-(* C11 — property theorems only (placeholder, being extended). *)
-From Coq Require Import List ZArith QArith Bool.
-From Gst Require Import lib.QAux C11.Sums C11.Spec C11.Model.
+(* C11 — property theorems only. Each is closed by [exact] of a lemma of Proofs*.v.
+   Conventions: a stored matrix d stands for the mathematical matrix [absd d] (entries [getv d i j]) on the index range
+   nr d x nc d; [meq m n A B] is entry-wise equality on that range; all sizes are universally quantified (1 x n, n x 1
+   and empty shapes included).  "_refuted" theorems exhibit the inputs on which the faithful model of the code violates
+   the contract of the Eigen primitive it calls (or returns something else than linear algebra defines); the same inputs
+   are replayed on the library by checks/C11.py. *)
+From Coq Require Import List ZArith QArith Bool Arith Sorted Permutation.
+From Gst Require Import lib.QAux C11.Sums C11.Spec C11.Model C11.Model_sparse C11.Model_vec
+  C11.Proofs C11.Proofs_ops C11.Proofs_sparse C11.Proofs_vec C11.Proofs_more.
 Import ListNotations.
 Local Open Scope Q_scope.
-Theorem C11_sum_swap : forall m n f, sumn m (fun i => sumn n (fun j => f i j)) == sumn n (fun j => sumn m (fun i => f i j)).
-Proof. exact sumn_swap. Qed.
-Print Assumptions C11_sum_swap.
+
+(* ================================================================== dense classes through Eigen *)
+(* prodMatMatInPlace, the four transposition flag combinations at once *)
+Theorem C11_prodMatMat_dense : forall d x y tx ty, dimc tx x = dimr ty y -> nr d = dimr tx x -> nc d = dimc ty y ->
+  exists r, D_prodMatMat d x y tx ty = Ok r /\ nr r = nr d /\ nc r = nc d /\ wfd r /\
+    meq (nr d) (nc d) (absd r) (mmul (dimc tx x) (opT tx (absd x)) (opT ty (absd y))).
+Proof. exact prodMatMat_dense. Qed.
+Print Assumptions C11_prodMatMat_dense.
+
+Theorem C11_prodMatVec_dense : forall d x t, length x = dimc t d ->
+  exists r, D_prodMatVec d x t = Ok r /\ length r = dimr t d /\
+    forall i, (i < dimr t d)%nat -> nth i r 0 = mvec (dimc t d) (opT t (absd d)) (vl x) i.
+Proof. exact prodMatVec_dense. Qed.
+Print Assumptions C11_prodMatVec_dense.
+
+Theorem C11_prodVecMat_dense : forall d x t, length x = dimr t d ->
+  exists r, D_prodVecMat d x t = Ok r /\ length r = dimc t d /\
+    forall j, (j < dimc t d)%nat -> nth j r 0 = vmat (dimr t d) (vl x) (opT t (absd d)) j.
+Proof. exact prodVecMat_dense. Qed.
+Print Assumptions C11_prodVecMat_dense.
+
+Theorem C11_transpose_dense : forall d,
+  exists r, D_transpose d = Ok r /\ nr r = nc d /\ nc r = nr d /\ wfd r /\ meq (nc d) (nr d) (absd r) (mT (absd d)).
+Proof. exact transpose_dense. Qed.
+Print Assumptions C11_transpose_dense.
+
+(* congruence products t(A).M.A and A.M.t(A) *)
+Theorem C11_prodNormMatMat_dense : forall d a m t, nr m = dimc t a -> nc m = dimc t a -> nr d = dimr t a -> nc d = dimr t a ->
+  exists r, D_prodNormMatMat d a m t = Ok r /\ nr r = nr d /\ nc r = nc d /\ wfd r /\
+    meq (nr d) (nc d) (absd r) (mcongr t (dimc t a) (absd a) (absd m)).
+Proof. exact prodNormMatMat_dense. Qed.
+Print Assumptions C11_prodNormMatMat_dense.
+
+Theorem C11_prodNormMatVec_dense_novec : forall d a t, nr d = dimr t a -> nc d = dimr t a ->
+  exists r, D_prodNormMatVec d a [] t = Ok r /\ nr r = nr d /\ nc r = nc d /\ wfd r /\
+    meq (nr d) (nc d) (absd r) (mcongr_id t (dimc t a) (absd a)).
+Proof. exact prodNormMatVec_dense_novec. Qed.
+Print Assumptions C11_prodNormMatVec_dense_novec.
+
+(* with a non-empty vector the wrapper multiplies by the mapped vector instead of its diagonal matrix *)
+Theorem C11_no_ub_prodNormMatVec_refuted : exists d a v c,
+  wfd a /\ length v = nc a /\ nr d = nr a /\ nc d = nr a /\ D_prodNormMatVec d a v false = UB c.
+Proof. exact prodNormMatVec_dense_refuted. Qed.
+Print Assumptions C11_no_ub_prodNormMatVec_refuted.
+
+(* row / column scaling: right on square matrices, a contract violation on any other shape *)
+Theorem C11_multiplyRow_dense_square : forall d v, nr d = nc d -> length v = nr d ->
+  exists r, D_multiplyRow d v = Ok r /\ nr r = nr d /\ nc r = nc d /\ meq (nr d) (nc d) (absd r) (mrowscale (vl v) (absd d)).
+Proof. exact multiplyRow_dense_square. Qed.
+Print Assumptions C11_multiplyRow_dense_square.
+Theorem C11_multiplyColumn_dense_square : forall d v, nr d = nc d -> length v = nc d ->
+  exists r, D_multiplyColumn d v = Ok r /\ nr r = nr d /\ nc r = nc d /\ meq (nr d) (nc d) (absd r) (mcolscale (vl v) (absd d)).
+Proof. exact multiplyColumn_dense_square. Qed.
+Print Assumptions C11_multiplyColumn_dense_square.
+Theorem C11_no_ub_multiplyRow_refuted : exists d v c, wfd d /\ length v = nr d /\ D_multiplyRow d v = UB c.
+Proof. exact multiplyRow_dense_refuted. Qed.
+Print Assumptions C11_no_ub_multiplyRow_refuted.
+Theorem C11_no_ub_multiplyColumn_refuted : exists d v c, wfd d /\ length v = nc d /\ D_multiplyColumn d v = UB c.
+Proof. exact multiplyColumn_dense_refuted. Qed.
+Print Assumptions C11_no_ub_multiplyColumn_refuted.
+Theorem C11_no_ub_divideRow_refuted : exists d v c,
+  wfd d /\ length v = nr d /\ (forall x, In x v -> ~ x == 0) /\ D_divideRow d v = UB c.
+Proof. exact divideRow_dense_refuted. Qed.
+Print Assumptions C11_no_ub_divideRow_refuted.
+Theorem C11_no_ub_divideColumn_refuted : exists d v c,
+  wfd d /\ length v = nc d /\ (forall x, In x v -> ~ x == 0) /\ D_divideColumn d v = UB c.
+Proof. exact divideColumn_dense_refuted. Qed.
+Print Assumptions C11_no_ub_divideColumn_refuted.
+(* in-place products with the transposed matrix map both vectors with the untransposed sizes *)
+Theorem C11_no_ub_prodMatVecInPlace_refuted : exists d x y c,
+  wfd d /\ length x = nr d /\ length y = nc d /\ D_prodMatVecInPlace d x y true = UB c.
+Proof. exact prodMatVecInPlace_dense_refuted. Qed.
+Print Assumptions C11_no_ub_prodMatVecInPlace_refuted.
+Theorem C11_no_ub_prodVecMatInPlace_refuted : exists d x y c,
+  wfd d /\ length x = nc d /\ length y = nr d /\ D_prodVecMatInPlace d x y true = UB c.
+Proof. exact prodVecMatInPlace_dense_refuted. Qed.
+Print Assumptions C11_no_ub_prodVecMatInPlace_refuted.
+
+(* element, row, column access *)
+Theorem C11_setValue_dense : forall d i j v, wfd d -> (i < nr d)%nat -> (j < nc d)%nat ->
+  exists r, D_setValue false d i j v = Ok r /\ nr r = nr d /\ nc r = nc d /\ wfd r /\
+    forall a b, (a < nr d)%nat -> (b < nc d)%nat -> getv r a b = mset i j v (absd d) a b.
+Proof. exact setValue_plain_spec. Qed.
+Print Assumptions C11_setValue_dense.
+(* symmetric storage: entry and mirror are written, symmetry is preserved *)
+Theorem C11_setValue_symmetric : forall d i j v, wfd d -> nr d = nc d -> (i < nr d)%nat -> (j < nr d)%nat ->
+  exists r, D_setValue true d i j v = Ok r /\ nr r = nr d /\ nc r = nc d /\ wfd r /\
+    (forall a b, (a < nr d)%nat -> (b < nr d)%nat -> getv r a b = mset j i v (mset i j v (absd d)) a b) /\
+    (msymmetric (nr d) (absd d) -> msymmetric (nr d) (absd r)).
+Proof. exact setValue_sym_spec. Qed.
+Print Assumptions C11_setValue_symmetric.
+Theorem C11_setRow_dense : forall d i t, (i < nr d)%nat -> length t = nc d ->
+  exists r, D_setRow d i t = Ok r /\ nr r = nr d /\ nc r = nc d /\ meq (nr d) (nc d) (absd r) (msetrow i (vl t) (absd d)).
+Proof. exact setRow_dense. Qed.
+Print Assumptions C11_setRow_dense.
+Theorem C11_setColumn_dense : forall d j t, (j < nc d)%nat -> length t = nr d ->
+  exists r, D_setColumn d j t = Ok r /\ nr r = nr d /\ nc r = nc d /\ meq (nr d) (nc d) (absd r) (msetcol j (vl t) (absd d)).
+Proof. exact setColumn_dense. Qed.
+Print Assumptions C11_setColumn_dense.
+Theorem C11_getRow_dense : forall d i, (i < nr d)%nat -> (0 < nc d)%nat ->
+  exists r, D_getRow d i = Ok r /\ length r = nc d /\ forall j, (j < nc d)%nat -> nth j r 0 = absd d i j.
+Proof. exact getRow_dense. Qed.
+Print Assumptions C11_getRow_dense.
+Theorem C11_getColumn_dense : forall d j, (j < nc d)%nat -> (0 < nr d)%nat ->
+  exists r, D_getColumn d j = Ok r /\ length r = nr d /\ forall i, (i < nr d)%nat -> nth i r 0 = absd d i j.
+Proof. exact getColumn_dense. Qed.
+Print Assumptions C11_getColumn_dense.
+
+(* ================================================================== generic element loops of AMatrix.cpp *)
+(* the loop "if (!_isPhysicallyPresent(i,j)) continue; setValue(i,j, g i j (getValue(i,j)))" over distinct positions:
+   plain storage rewrites exactly the visited entries ... *)
+Theorem C11_loop_plain : forall g ps d, wfd d -> NoDup ps ->
+  (forall p, In p ps -> (fst p < nr d)%nat /\ (snd p < nc d)%nat) ->
+  nr (loop_set false ps g d) = nr d /\ nc (loop_set false ps g d) = nc d /\ wfd (loop_set false ps g d) /\
+  forall a b, (a < nr d)%nat -> (b < nc d)%nat ->
+    (In (a, b) ps -> getv (loop_set false ps g d) a b = g a b (getv d a b)) /\
+    (~ In (a, b) ps -> getv (loop_set false ps g d) a b = getv d a b).
+Proof. exact loop_set_plain. Qed.
+Print Assumptions C11_loop_plain.
+(* ... symmetric storage rewrites the visited lower-triangle entries and their mirrors *)
+Theorem C11_loop_symmetric : forall g ps d, wfd d -> nr d = nc d -> NoDup ps ->
+  (forall p, In p ps -> (fst p < nr d)%nat /\ (snd p < nr d)%nat) ->
+  nr (loop_set true ps g d) = nr d /\ nc (loop_set true ps g d) = nc d /\ wfd (loop_set true ps g d) /\
+  forall a b, (a < nr d)%nat -> (b < nr d)%nat ->
+    (In (lowrep a b) ps -> getv (loop_set true ps g d) a b =
+        g (fst (lowrep a b)) (snd (lowrep a b)) (getv d (fst (lowrep a b)) (snd (lowrep a b)))) /\
+    (~ In (lowrep a b) ps -> getv (loop_set true ps g d) a b = getv d a b).
+Proof. exact loop_set_sym. Qed.
+Print Assumptions C11_loop_symmetric.
+
+Theorem C11_multiplyRow_generic : forall d v, wfd d -> length v = nr d ->
+  exists r, G_multiplyRow false d v = Ok r /\ nr r = nr d /\ nc r = nc d /\ meq (nr d) (nc d) (absd r) (mrowscale (vl v) (absd d)).
+Proof. exact multiplyRow_generic. Qed.
+Print Assumptions C11_multiplyRow_generic.
+Theorem C11_multiplyColumn_generic : forall d v, wfd d -> length v = nc d ->
+  exists r, G_multiplyColumn false d v = Ok r /\ nr r = nr d /\ nc r = nc d /\ meq (nr d) (nc d) (absd r) (mcolscale (vl v) (absd d)).
+Proof. exact multiplyColumn_generic. Qed.
+Print Assumptions C11_multiplyColumn_generic.
+Theorem C11_divideRow_generic : forall d v, wfd d -> length v = nr d ->
+  exists r, G_divideRow false d v = Ok r /\ nr r = nr d /\ nc r = nc d /\ meq (nr d) (nc d) (absd r) (mrowdiv (vl v) (absd d)).
+Proof. exact divideRow_generic. Qed.
+Print Assumptions C11_divideRow_generic.
+Theorem C11_divideColumn_generic : forall d v, wfd d -> length v = nc d ->
+  exists r, G_divideColumn false d v = Ok r /\ nr r = nr d /\ nc r = nc d /\ meq (nr d) (nc d) (absd r) (mcoldiv (vl v) (absd d)).
+Proof. exact divideColumn_generic. Qed.
+Print Assumptions C11_divideColumn_generic.
+Theorem C11_addMat_generic : forall d y cx cy, wfd d -> nr y = nr d -> nc y = nc d ->
+  exists r, G_addMat false d y cx cy = Ok r /\ nr r = nr d /\ nc r = nc d /\ meq (nr d) (nc d) (absd r) (mlin2 cx (absd d) cy (absd y)).
+Proof. exact addMat_generic. Qed.
+Print Assumptions C11_addMat_generic.
+Theorem C11_linearCombination : forall d c1 m1 c2 m2 c3 m3, wfd d ->
+  lc_ok d m1 = true -> lc_ok d m2 = true -> lc_ok d m3 = true ->
+  exists r, G_linearCombination false d c1 m1 c2 m2 c3 m3 = Ok r /\ nr r = nr d /\ nc r = nc d /\
+    meq (nr d) (nc d) (absd r) (mlin3 c1 (omat m1) c2 (omat m2) c3 (omat m3)).
+Proof. exact linearCombination_generic. Qed.
+Print Assumptions C11_linearCombination.
+Theorem C11_linearCombination_symmetric : forall d c1 m1 c2 m2 c3 m3, wfd d -> nr d = nc d ->
+  lc_ok d m1 = true -> lc_ok d m2 = true -> lc_ok d m3 = true ->
+  osym (nr d) m1 -> osym (nr d) m2 -> osym (nr d) m3 ->
+  exists r, G_linearCombination true d c1 m1 c2 m2 c3 m3 = Ok r /\ nr r = nr d /\ nc r = nc d /\
+    meq (nr d) (nc d) (absd r) (mlin3 c1 (omat m1) c2 (omat m2) c3 (omat m3)).
+Proof. exact linearCombination_generic_sym. Qed.
+Print Assumptions C11_linearCombination_symmetric.
+
+(* the generic product (reached with operands of different classes): right only when op(y) is square ... *)
+Theorem C11_prodMatMat_generic_partial : forall d x y tx ty,
+  wfd d -> nr y = nc y -> dimc tx x = nr y -> nr d = dimr tx x -> nc d = nc y ->
+  exists r, G_prodMatMat false d x y tx ty = Ok r /\ nr r = nr d /\ nc r = nc d /\
+    meq (nr d) (nc d) (absd r) (mmul (dimc tx x) (opT tx (absd x)) (opT ty (absd y))).
+Proof. exact prodMatMat_generic_partial. Qed.
+Print Assumptions C11_prodMatMat_generic_partial.
+(* ... the dimension guard compares with the wrong dimension of y: a well-formed (1x2).(2x1) is refused *)
+Theorem C11_prodMatMat_generic_refuted : exists d x y,
+  wfd d /\ wfd x /\ wfd y /\ nc x = nr y /\ nr d = nr x /\ nc d = nc y /\
+  G_prodMatMat false d x y false false = Ok d /\
+  ~ meq (nr d) (nc d) (absd d) (mmul (nc x) (absd x) (absd y)).
+Proof. exact prodMatMat_generic_refuted. Qed.
+Print Assumptions C11_prodMatMat_generic_refuted.
+
+Theorem C11_prodNormMatMat_generic : forall d a m t,
+  wfd d -> nr m = dimc t a -> nc m = dimc t a -> nr d = dimr t a -> nc d = dimr t a ->
+  exists r, G_prodNormMatMat false d a m t = Ok r /\ nr r = nr d /\ nc r = nc d /\
+    meq (nr d) (nc d) (absd r) (mcongr t (dimc t a) (absd a) (absd m)).
+Proof. exact prodNormMatMat_generic. Qed.
+Print Assumptions C11_prodNormMatMat_generic.
+Theorem C11_prodNormMatMat_symmetric : forall d a m t,
+  wfd d -> nr m = dimc t a -> nc m = dimc t a -> nr d = dimr t a -> nc d = dimr t a ->
+  msymmetric (dimc t a) (absd m) ->
+  exists r, G_prodNormMatMat true d a m t = Ok r /\ nr r = nr d /\ nc r = nc d /\
+    meq (nr d) (nc d) (absd r) (mcongr t (dimc t a) (absd a) (absd m)) /\ msymmetric (nr d) (absd r).
+Proof. exact prodNormMatMat_generic_sym. Qed.
+Print Assumptions C11_prodNormMatMat_symmetric.
+(* AMatrix::prodNormMatVecInPlace reads a(k,j) where a(j,k) is meant (and conversely) *)
+Theorem C11_prodNormMatVec_generic_refuted_ub : exists d a v c,
+  wfd d /\ wfd a /\ length v = nc a /\ nr d = nr a /\ nc d = nr a /\ G_prodNormMatVec false d a v false = UB c.
+Proof. exact prodNormMatVec_generic_refuted_ub. Qed.
+Print Assumptions C11_prodNormMatVec_generic_refuted_ub.
+Theorem C11_prodNormMatVec_generic_refuted_value : exists d a r,
+  wfd d /\ wfd a /\ nr a = nc a /\ nr d = nr a /\ nc d = nr a /\ G_prodNormMatVec false d a [] false = Ok r /\
+  ~ meq (nr d) (nc d) (absd r) (mcongr_id false (nc a) (absd a)).
+Proof. exact prodNormMatVec_generic_refuted_value. Qed.
+Print Assumptions C11_prodNormMatVec_generic_refuted_value.
+
+(* ================================================================== csparse kernels *)
+(* cs_triplet: the compressed-column matrix holds the accumulated triplets (duplicates add up), for every triplet list *)
+Theorem C11_cs_compress : forall T i j, abs_csc (cs_triplet T) i j == abs_trip T i j.
+Proof. exact cs_compress_spec. Qed.
+Print Assumptions C11_cs_compress.
+Theorem C11_cs_transpose : forall a, rows_ok a -> (0 < cm a)%nat -> (0 < cn a)%nat ->
+  exists c, cs_transpose a true = Some c /\ cm c = cn a /\ cn c = cm a /\
+    forall i j, (i < cm a)%nat -> (j < cn a)%nat -> abs_csc c j i == abs_csc a i j.
+Proof. exact cs_transpose_spec. Qed.
+Print Assumptions C11_cs_transpose.
+Theorem C11_cs_gaxpy : forall a x y, rows_ok a -> length x = cn a -> length y = cm a ->
+  exists y', cs_gaxpy a x y = Ok y' /\ length y' = cm a /\
+    forall i, (i < cm a)%nat -> nth i y' 0 == nth i y 0 + sumn (cn a) (fun j => abs_csc a i j * nth j x 0).
+Proof. exact cs_gaxpy_spec. Qed.
+Print Assumptions C11_cs_gaxpy.
+(* both sparse back-ends stand for the same matrix when built from the same triplets *)
+Theorem C11_storage_agree : forall T i j,
+  (i < nr (sem (SE_fromTriplet T)))%nat -> (j < nc (sem (SE_fromTriplet T)))%nat ->
+  getv (sem (SE_fromTriplet T)) i j == abs_csc (scs (SC_fromTriplet T)) i j.
+Proof. exact storage_agree_triplet. Qed.
+Print Assumptions C11_storage_agree.
+
+(* MatrixSparse wrappers: witnesses of what the correspondence observes on the library *)
+Theorem C11_prodVecMat_cs_refuted : exists r, SC_prodVecMat (SC_fromTriplet T23) [1; 1] false = r /\ r <> Ok [3; 7; 11].
+Proof. exact prodVecMat_cs_refuted. Qed.
+Print Assumptions C11_prodVecMat_cs_refuted.
+Theorem C11_transpose_cs_refuted : exists s, SC_transposeInPlace (SC_fromTriplet [tr 0 0 1]) = Ok s /\ SC_getValues s = UB ub_segv.
+Proof. exact transpose_cs_refuted. Qed.
+Print Assumptions C11_transpose_cs_refuted.
+Theorem C11_transpose_eigen_refuted : exists s,
+  SE_transposeInPlace (SE_fromTriplet T23) = Ok s /\ enr s = 2%nat /\ nr (sem s) = 3%nat /\ SE_getValues s = UB ub_index.
+Proof. exact transpose_eigen_refuted. Qed.
+Print Assumptions C11_transpose_eigen_refuted.
+Theorem C11_prodVecMatInPlace_eigen_refuted : exists c, SE_prodVecMatInPlace (SE_fromTriplet T23) [1; 1; 1] [0; 0] true = UB c.
+Proof. exact prodVecMatInPlace_eigen_refuted. Qed.
+Print Assumptions C11_prodVecMatInPlace_eigen_refuted.
+Theorem C11_createFromAnyMatrix_refuted : exists d,
+  wfd d /\ nr d = 2%nat /\ snr (SC_fromTriplet (dense_to_triplet d)) = 1%nat /\ enr (SE_fromTriplet (dense_to_triplet d)) = 1%nat.
+Proof. exact fromAny_refuted. Qed.
+Print Assumptions C11_createFromAnyMatrix_refuted.
+Theorem C11_multiplyRow_cs_refuted : exists c, SC_multiplyRow (SC_fromTriplet [tr 0 0 1; tr 0 0 1]) [2] = UB c.
+Proof. exact multiplyRow_cs_refuted. Qed.
+Print Assumptions C11_multiplyRow_cs_refuted.
+
+(* ================================================================== triangular solves and Cholesky wrappers *)
+Theorem C11_solve_forward : forall n L b eps, pivots_ok n L eps -> mlower n L ->
+  exists y, forward_subst n L b eps = Some y /\ length y = n /\ veq n (mvec n L (vl y)) b.
+Proof. exact forward_subst_solves. Qed.
+Print Assumptions C11_solve_forward.
+Theorem C11_solve_backward : forall n U b eps, pivots_ok n U eps -> mupper n U ->
+  exists y, backward_subst n U b eps = Some y /\ length y = n /\ veq n (mvec n U (vl y)) b.
+Proof. exact backward_subst_solves. Qed.
+Print Assumptions C11_solve_backward.
+(* ACholesky::solve over a factor satisfying the certificate L.t(L) = A: A.x = b *)
+Theorem C11_solve : forall n L A b, chol_factor n L A -> length b = n ->
+  exists x, CH_solve n L b = Ok x /\ length x = n /\ veq n (mvec n A (vl x)) (vl b).
+Proof. exact chol_solve_spec. Qed.
+Print Assumptions C11_solve.
+(* simulation s = t(L)^-1.xi : A.s = L.xi for every xi, i.e. s = A^-1.L.xi and Cov(s) = A^-1.(L.t(L)).A^-1 = A^-1 *)
+Theorem C11_chol_sim_cov : forall n L A xi, chol_factor n L A -> length xi = n ->
+  exists s, CH_InvLtX n L xi = Ok s /\ length s = n /\ veq n (mvec n A (vl s)) (mvec n L (vl xi)).
+Proof. exact chol_sim_cov. Qed.
+Print Assumptions C11_chol_sim_cov.
+(* the certificate evaluated by the runner on the oracle's factor is sound *)
+Theorem C11_chol_cert_sound : forall n L A, chol_cert n L A = true -> chol_factor n L A.
+Proof. exact chol_cert_sound. Qed.
+Print Assumptions C11_chol_cert_sound.
+
+(* ================================================================== numeric vectors *)
+(* orderRanks returns the stable sorting permutation: a permutation of 0..n-1, sorted by (value, index), NA last *)
+Theorem C11_orderRanks : forall v asc, v <> [] ->
+  Sorted (lexlt (rank_cmp v asc)) (VH_orderRanks v asc None) /\ Permutation (VH_orderRanks v asc None) (seq 0 (length v)).
+Proof. exact orderRanks_spec. Qed.
+Print Assumptions C11_orderRanks.
+Theorem C11_sum : forall v, VN_sum v == suml v.
+Proof. exact VN_sum_spec. Qed.
+Print Assumptions C11_sum.
+Theorem C11_innerProduct : forall a b, length a = length b ->
+  VN_innerProduct a b = Ok (fold_left (fun s p => s + fst p * snd p) (combine a b) 0) /\
+  fold_left (fun s p => s + fst p * snd p) (combine a b) 0 == dot (length a) (vl a) (vl b).
+Proof. exact innerProduct_spec. Qed.
+Print Assumptions C11_innerProduct.
+Theorem C11_VectorNumT_maximum_refuted : exists v, v <> [] /\ (forall x, In x v -> x < 0) /\ 0 < VN_maximum v.
+Proof. exact VN_maximum_refuted. Qed.
+Print Assumptions C11_VectorNumT_maximum_refuted.
+Theorem C11_VectorNumT_divide_refuted : exists a b, length a = length b /\ (forall x, In x b -> ~ x == 0) /\ VN_divide a b = Exn.
+Proof. exact VN_divide_refuted. Qed.
+Print Assumptions C11_VectorNumT_divide_refuted.
+
+(* ================================================================== non-vacuity: the hypotheses are satisfiable on non-trivial states
+   (results are compared after reduction of every entry to lowest terms: nrmD / nrmV / nrmO) *)
+Definition ex_x : dense := mkD 2 3 [1; 2; 3; 4; 5; 6].            (* 2 x 3 *)
+Definition ex_y : dense := mkD 2 3 [1; 0; -(1); 2; 1 # 2; 3].      (* 2 x 3 *)
+Definition ex_s : dense := mkD 2 2 [2; 1; 1; 3].                  (* symmetric 2 x 2 *)
+(* prodMatMat (x.t(y), t(x).y), prodMatVec, prodVecMat, transpose, congruence products on non-square operands *)
+Example C11_nonvacuous_dense :
+  nrmD (D_prodMatMat (tab 2 2 mzero) ex_x ex_y false true) = Some (2%nat, 2%nat, [1 # 2; 1; 21; 26]) /\
+  nrmD (D_prodMatMat (tab 3 3 mzero) ex_x ex_y true false) = Some (3%nat, 3%nat, [1; 3; 5; 3; 5; 7; 13 # 2; 27 # 2; 41 # 2]) /\
+  nrmV (D_prodMatVec ex_x [1; 1] true) = Some [3; 7; 11] /\ nrmV (D_prodVecMat ex_x [1; 0; 2] true) = Some [11; 14] /\
+  nrmD (D_transpose ex_x) = Some (3%nat, 2%nat, [1; 3; 5; 2; 4; 6]) /\
+  nrmD (D_prodNormMatMat (tab 3 3 mzero) ex_x ex_s true) = Some (3%nat, 3%nat, [18; 40; 62; 40; 90; 140; 62; 140; 218]) /\
+  nrmD (D_prodNormMatVec (tab 2 2 mzero) ex_x [] false) = Some (2%nat, 2%nat, [35; 44; 44; 56]).
+Proof. vm_compute. repeat split; reflexivity. Qed.
+(* square scaling, element / row / column access; symmetric setValue keeps the mirror *)
+Example C11_nonvacuous_access :
+  nrmD (D_multiplyRow ex_s [2; 3]) = Some (2%nat, 2%nat, [4; 3; 2; 9]) /\ nrmD (D_multiplyColumn ex_s [2; 3]) = Some (2%nat, 2%nat, [4; 2; 3; 9]) /\
+  nrmD (D_setValue false ex_x 1 2 9) = Some (2%nat, 3%nat, [1; 2; 3; 4; 5; 9]) /\
+  nrmD (D_setValue true ex_s 1 0 7) = Some (2%nat, 2%nat, [2; 7; 7; 3]) /\
+  nrmD (D_setRow ex_x 1 [7; 8; 9]) = Some (2%nat, 3%nat, [1; 7; 3; 8; 5; 9]) /\
+  nrmD (D_setColumn ex_x 1 [7; 8]) = Some (2%nat, 3%nat, [1; 2; 7; 8; 5; 6]) /\
+  nrmV (D_getRow ex_x 1) = Some [2; 4; 6] /\ nrmV (D_getColumn ex_x 2) = Some [5; 6].
+Proof. vm_compute. repeat split; reflexivity. Qed.
+(* generic loops on a non-square matrix and on the symmetric class; the generic product refuses x.t(x) (2x3 by 3x2)
+   and accepts x.diag (second operand square) *)
+Example C11_nonvacuous_generic :
+  nrmD (G_multiplyRow false ex_x [2; 3]) = Some (2%nat, 3%nat, [2; 6; 6; 12; 10; 18]) /\
+  nrmD (G_divideColumn false ex_x [1; 2; 4]) = Some (2%nat, 3%nat, [1; 2; 3 # 2; 2; 5 # 4; 3 # 2]) /\
+  nrmD (G_addMat false ex_x ex_y 2 (-(1))) = Some (2%nat, 3%nat, [1; 4; 7; 6; 19 # 2; 9]) /\
+  nrmD (G_linearCombination false ex_x 2 (Some ex_y) 1 None 3 (Some ex_x)) = Some (2%nat, 3%nat, [5; 6; 7; 16; 16; 24]) /\
+  nrmD (G_linearCombination true ex_s 2 (Some ex_s) 1 (Some ex_s) 1 None) = Some (2%nat, 2%nat, [6; 3; 3; 9]) /\
+  nrmD (G_prodMatMat false (tab 2 2 mzero) ex_x ex_x false true) = Some (2%nat, 2%nat, [0; 0; 0; 0]) /\
+  nrmD (G_prodMatMat false (tab 2 3 mzero) ex_x (mkD 3 3 [1; 0; 0; 0; 2; 0; 0; 0; 1]) false false) = Some (2%nat, 3%nat, [1; 2; 6; 8; 5; 6]) /\
+  nrmD (G_prodNormMatMat false (tab 3 3 mzero) ex_x ex_s true) = Some (3%nat, 3%nat, [18; 40; 62; 40; 90; 140; 62; 140; 218]) /\
+  nrmD (G_prodNormMatMat true (tab 3 3 mzero) ex_x ex_s true) = Some (3%nat, 3%nat, [18; 40; 62; 40; 90; 140; 62; 140; 218]).
+Proof. vm_compute. repeat split; reflexivity. Qed.
+(* csparse kernels on a triplet list with duplicates, an explicit zero and unsorted rows *)
+Definition ex_T : list trip := [tr 1 0 2; tr 0 0 1; tr 1 2 6; tr 1 0 (-(1)); tr 0 1 0; tr 0 2 5].
+Example C11_nonvacuous_sparse :
+  cp (cs_triplet ex_T) = [0; 3; 4; 6]%nat /\ ci (cs_triplet ex_T) = [1; 0; 1; 0; 1; 0]%nat /\
+  map (fun p => Qred (abs_csc (cs_triplet ex_T) (fst p) (snd p))) (rowmajor 2 3) = [1; 0; 5; 1; 0; 6] /\
+  forallb (fun t => (trow t <? cm (cs_triplet ex_T))%nat) (csc_stream (cs_triplet ex_T)) = true /\
+  (match cs_transpose (cs_triplet ex_T) true with Some c => map (fun p => Qred (abs_csc c (fst p) (snd p))) (rowmajor 3 2) | None => [] end) = [1; 1; 0; 0; 5; 6] /\
+  nrmV (cs_gaxpy (cs_triplet ex_T) [1; 1; 1] [10; 20]) = Some [16; 27].
+Proof. vm_compute. repeat split; reflexivity. Qed.
+(* solves: a lower factor with non-trivial off-diagonal terms; its certificate holds *)
+Definition ex_L : mat := fun i j => nth j (nth i [[2; 0; 0]; [1; 1; 0]; [-(3); 2; 4]] []) 0.
+Definition ex_A : mat := mmul 3 ex_L (mT ex_L).
+Example C11_nonvacuous_solve :
+  chol_cert 3 ex_L ex_A = true /\
+  nrmO (forward_subst 3 ex_L (vl [2; 3; 5]) 0) = Some [1; 2; 1] /\
+  nrmO (backward_subst 3 (mT ex_L) (vl [1; 2; 1]) 0) = Some [1 # 8; 3 # 2; 1 # 4] /\
+  nrmV (CH_solve 3 ex_L [2; 3; 5]) = Some [1 # 8; 3 # 2; 1 # 4] /\
+  map (fun i => Qred (mvec 3 ex_A (vl [1 # 8; 3 # 2; 1 # 4]) i)) [0; 1; 2]%nat = [2; 3; 5].
+Proof. vm_compute. repeat split; reflexivity. Qed.
+(* ranks with ties and NA, both directions; sums *)
+Example C11_nonvacuous_vectors :
+  VH_orderRanks [Some 3; Some 1; None; Some 1; Some 3] true None = [1; 3; 0; 4; 2]%nat /\
+  VH_orderRanks [Some 3; Some 1; None; Some 1; Some 3] false None = [2; 0; 4; 1; 3]%nat /\
+  VH_sortRanks [Some 3; Some 1; None; Some 1] true None = [2; 0; 3; 1]%nat /\
+  Qred (VN_sum [1; 1 # 2; -(3)]) = (-3) # 2 /\ VN_innerProduct [1; 2; 3] [4; 5; 6] = Ok 32.
+Proof. vm_compute. repeat split; reflexivity. Qed.
